@@ -83,7 +83,7 @@ fn check_builtin(entry: TypeEntry, conv: bool, dflt: bool) {
         };
         kani::assert(fact, "[C17/P1] has_impl claims a trait the built-in type does not implement");
     }
-    kani::cover!(has || !(conv || dflt), "[must] some impl is claimed");
+    kani::cover!(has, "[info] some impl is claimed");
     core::mem::forget(entry);
     core::mem::forget(ts);
 }
